@@ -4,12 +4,7 @@
 // implementation's results (OUT <tag> ...), then END.  The OCaml driver recomputes every OUT line
 // from the inputs with the extracted Gallina model; the check compares them.
 #include "mb_common.h"
-int main(int argc, char** argv) {
-    unsigned long long seed = std::strtoull(argv[1], 0, 10); int nsys = std::atoi(argv[2]); int maxb = argc > 3 ? std::atoi(argv[3]) : 10;
-    Rng r(seed);
-    for (int k = 0; k < nsys; ++k) {
-        RandSystem rs; int nb = r.I(1, maxb); int shape = r.I(0, 2);
-        try { rs.build(r, nb, shape); } catch (const std::exception& e) { std::printf("SKIP %s\n", e.what()); continue; }
+static void emit(RandSystem& rs, Rng& r) {
         State& s = rs.state; const SimbodyMatterSubsystem& m = rs.matter;
         rs.sys.realize(s, Stage::Velocity);
         int nu = s.getNU(), NB = m.getNumBodies();
@@ -50,6 +45,34 @@ int main(int argc, char** argv) {
         Vector MIW; m.multiplyByMInv(s, MW, MIW); pvec("OUT MINV_MW", MIW);          // must reproduce W
         Matrix MI; m.calcMInv(s, MI); Vector MIMW = MI * MW; pvec("OUT MINVMAT_MW", MIMW);
         std::printf("END\n");
+}
+
+int main(int argc, char** argv) {
+    unsigned long long seed = std::strtoull(argv[1], 0, 10); int nsys = std::atoi(argv[2]); int maxb = argc > 3 ? std::atoi(argv[3]) : 10;
+    Rng r(seed);
+    for (int k = 0; k < nsys; ++k) {
+        {
+            RandSystem rs; int nb = r.I(1, maxb); int shape = r.I(0, 2);
+            try { rs.build(r, nb, shape); } catch (const std::exception& e) { std::printf("SKIP %s\n", e.what()); continue; }
+            emit(rs, r);
+        }
+        if (k % 5 == 4) {
+            // lone particles (simbody's RBNodeLoneParticle: childless forward Translation on Ground, identity frames, mass centre at the
+            // origin) next to an ordinary body; half of the time a Free or Ball body is created first, so that the particles' q and u
+            // offsets differ (the quaternion reserves one more q than u)
+            RandSystem rs;
+            try {
+                if (r.I(0, 1)) { int ty = r.I(0, 1) ? 9 : 8; addMobod(ty, rs.matter.updGround(), r.xf(), Body::Rigid(randomMassProps(r)), r.xf(), false);
+                                 rs.types.push_back(ty); rs.revs.push_back(false); }
+                int np = r.I(1, 3);
+                for (int i = 0; i < np; ++i) {
+                    MobilizedBody::Translation(rs.matter.updGround(), Transform(), Body::Rigid(MassProperties(r.U(0.2, 3), Vec3(0), Inertia(0))), Transform());
+                    rs.types.push_back(10); rs.revs.push_back(false);
+                }
+                rs.build(r, 1, 0);
+                emit(rs, r);
+            } catch (const std::exception& e) { std::printf("SKIP %s\n", e.what()); }
+        }
     }
     return 0;
 }
